@@ -29,9 +29,15 @@ _MECARD_ESCAPE = {
 
 
 _VCARD_ESCAPE = {
+    ord('\\'): '\\\\',
     ord(','): '\\,',
     ord(';'): '\\;',
+    ord('\n'): '\\n',
+    ord('\r'): '',
 }
+
+# The name is a structured value: the semicolon separates the components
+_VCARD_ESCAPE_NAME = {k: v for k, v in _VCARD_ESCAPE.items() if k not in (ord(','), ord(';'))}
 
 
 def _escape_mecard(s):
@@ -301,7 +307,7 @@ def make_vcard_data(name, displayname, email=None, phone=None, fax=None,
 
     escape = _escape_vcard
     data = ['BEGIN:VCARD', 'VERSION:3.0',
-            f'N:{name}',
+            f'N:{str(name).translate(_VCARD_ESCAPE_NAME)}',
             f'FN:{escape(displayname)}']
     if org:
         data.append(f'ORG:{escape(org)}')
